@@ -210,6 +210,30 @@ pub fn run(seed: u64, per_type: usize, out: &mut dyn Write) {
                              "decoded": dec.map(|d| bytes(&d.encode())).unwrap_or(json!("err"))}));
         }
     }
+    // MaterialColors blobs as such (69 bytes: 6 unused, then 21 colours): all zero - every colour black -, all 0xff, a
+    // ramp, and one black entry at each of the 21 positions; decode, encode again, same bytes
+    {
+        let mut blobs: Vec<Vec<u8>> = vec![vec![0u8; 69], vec![0xffu8; 69], (0..69u8).map(|i| i.wrapping_mul(37).wrapping_add(5)).collect()];
+        for k in 0..21 {
+            let mut b: Vec<u8> = (0..69u8).map(|i| 200u8.wrapping_sub(i)).collect();
+            for j in 0..6 {
+                b[j] = 0;
+            }
+            for j in 0..3 {
+                b[6 + 3 * k + j] = 0;
+            }
+            blobs.push(b);
+        }
+        for (i, blob) in blobs.into_iter().enumerate() {
+            let mut canon = blob.clone();
+            for j in 0..6 {
+                canon[j] = 0; // the six leading bytes are not part of the value
+            }
+            let dec = MaterialColors::decode(&blob);
+            emit(out, json!({"ep": format!("matcolblob:{}", i), "op": "blob", "kind": "MaterialColors", "value": bytes(&canon), "encoded": bytes(&blob),
+                             "decoded": dec.map(|d| bytes(&d.encode())).unwrap_or(json!("err"))}));
+        }
+    }
     // ---- the Lua wire contract: rbx_dom_lua/src/allValues.json ---------------------------------
     let text = std::fs::read_to_string("/repo/rbx_dom_lua/src/allValues.json").unwrap_or_default();
     if let Ok(Value::Object(all)) = serde_json::from_str::<Value>(&text) {
